@@ -532,6 +532,34 @@ def flipSign (flip : Bool) (q : List α) : List α := if flip then q.map (fun a 
 
 end QAvg
 
+/-! ## 7. Sessions: the caller's objects across repeated calls of `solve`
+
+No statement of the public entry points (`match`, `estimate`, `solve` and the helpers they hand their arguments to)
+mutates an object owned by the caller (`Gen.callerArgMutations = []`, Tie A), so a call is modelled as a function that
+returns the caller's objects as they came, together with its result. -/
+section Session
+variable {α P : Type}
+
+/-- the objects the caller passes to `solve` and keeps afterwards -/
+structure SolveArgs (P : Type) where
+  guessBs : Dict P
+  guessCf : List P
+  samples : List (List Nat)
+
+/-- one `solve` call as seen by the caller: (the caller's objects afterwards, the start vector `x0` the solver used) -/
+def solveCall (toParams : P → List α) (zero : α) (defs : Defs) (a : SolveArgs P) : SolveArgs P × Except SolveErr (List α) :=
+  (a, initialX0 toParams zero defs a.guessBs a.guessCf)
+
+/-- `n` consecutive `solve` calls on the same objects (retry / re-solve) -/
+def solveSession (toParams : P → List α) (zero : α) (defs : Defs) : Nat → SolveArgs P → SolveArgs P × List (Except SolveErr (List α))
+  | 0, a => (a, [])
+  | n + 1, a =>
+    let (a1, r) := solveCall toParams zero defs a
+    let (a2, rs) := solveSession toParams zero defs n a1
+    (a2, r :: rs)
+
+end Session
+
 /-! ## 4. IPPE <-> CF axis permutation -/
 
 abbrev Mat := List (List Int)
